@@ -616,6 +616,12 @@ def replay_inproc(case):
         snapshot_table_names()
         D_IMPORT[0], D_IMPORT[1] = module_digest("tables")[0], module_digest("other")[0]
         judge_history(tuple(case["events"]), acc, digest=True)
+    elif k == "readerhist":
+        cfg = case["cfg"]
+        al = lambda t: streams.item_sigs(streams.run_reader(streams.TOKENS[t][2], cfg))  # noqa: E731
+        r = streams.run_reader(streams.TOKENS[case["a"]][2] + streams.TOKENS[case["b"]][2], cfg)
+        if streams.item_sigs(r) != al(case["a"]) + al(case["b"]):
+            acc.violation(f"reader_result_depends_on_earlier_frame|{case['b']}|msgmode={cfg['msgmode']}", case, "")
     elif k == "sched" and case.get("digest"):
         d0, _ = module_digest()
         with FdCapture() as capt:
@@ -642,7 +648,7 @@ def replay_inproc(case):
 def eval_block(block, acc):
     """Workers never touch the library themselves: immutability and schedule blocks run in a forked
     child (pristine module state at block start), history blocks fork once per history."""
-    if block[0] in ("immut", "sched"):
+    if block[0] in ("immut", "sched", "readerhist"):
         sub = in_fork(_eval_in_child, block)
         acc.merge(sub)
     else:
@@ -681,6 +687,22 @@ def _eval_block(block, acc):
         history_block(block[1], block[2], acc, block[3] if len(block) > 3 else None)
         if len(acc.samples) < 1:
             acc.sample({"history": [block[1][0]] + (["<every event of the (sub-)alphabet>"] * (block[2] - 1)), "then": "probe set", "digest_nodes": acc.extra["digest_nodes"]})
+    elif kind == "readerhist":
+        # one reader, two frames: what it delivers for the second frame must be what a fresh reader delivers for
+        # that frame alone (items(A+B) == items(A) + items(B)) - for every ordered pair of frame tokens, 4 modes
+        toks = [t for t in streams.FRAME_TOKENS + list(streams.ERR_TOKENS)]
+        mode = block[1]
+        for va in (1, 0):
+            cfg = dict(quitonerror=0, msgmode=mode, validate=va)
+            alone = {t: streams.item_sigs(streams.run_reader(streams.TOKENS[t][2], cfg)) for t in toks}
+            for a in toks:
+                for b in toks:
+                    r = streams.run_reader(streams.TOKENS[a][2] + streams.TOKENS[b][2], cfg)
+                    acc.evaluations += 1
+                    acc.transitions += 2
+                    if r.raised is None and not r.horizon and streams.item_sigs(r) != alone[a] + alone[b]:
+                        acc.violation(f"reader_result_depends_on_earlier_frame|{b}|msgmode={mode}", {"kind": "readerhist", "a": a, "b": b, "cfg": cfg}, f"after {a}: {len(r.items)} items vs {len(alone[a])}+{len(alone[b])}")
+        acc.outcomes[("readerhist", mode)] += 1
     elif kind == "coldsched":
         _, names, bound, first, shard = block
         st, info = explore_program(tuple(names), bound, acc, None, first, tuple(shard) if shard else None, cold=True)
@@ -742,6 +764,7 @@ def run_tier(tier, t0):
         for first in (0, 1):
             for k in range(K):
                 blocks.append(("sched", [a, b], 1, None, first, (k, K)))
+    blocks += [("readerhist", m) for m in range(4)]
     COLD_PAIRS = [("parse_valget", "parse_valget"), ("config_set", "parse_valget"), ("config_set", "config_set"), ("parse_gnss_1", "parse_gnss_2"), ("build_gnss", "parse_gnss_1"), ("tp5_poll", "tp5_set")]
     for a, b in (COLD_PAIRS if q else pairs):
         for first in (0, 1):
